@@ -45,9 +45,18 @@ CLAIMS["C01"] = dict(
          "join/race/try_join/merge/chain/zip) and compares them with the lock-step model instance by instance. Theorem "
          "C01_join_resolves (FcProps/C01live.lean): the liveness consequence for join - under a wake-only executor with a "
          "fresh waker per poll and a benign environment (Fc/Exec.lean), a join of well-behaved futures resolves to the "
-         "positional values within 3*steps+1 rounds, both models and strategies (a 2*steps+2 bound is refuted in the file); "
-         "for the other families the harness's fair wake-only executor (profile drain) must never get stuck (monitor LV).",
-    note=TB + " Liveness by theorem for join only; for the other families by the drain runs on the real code.",
+         "positional values within 3*steps+1 rounds, both models and strategies (a 2*steps+2 bound is refuted in the file). "
+         "Theorems C01_race_resolves, C01_try_join_resolves, C01_race_ok_resolves (FcProps/C01live2.lean): the same for race "
+         "(n > 0), try_join (both models; resolves to Ok of all values or the first observed error) and race_ok (three "
+         "variants). Theorems C01_merge_ends, C01_chain_ends, C01_zip_ends (FcProps/C01live3.lean): a merge / chain / zip "
+         "(n > 0) of well-behaved streams (any finite mix of Pending steps with arbitrary in-poll wake-ups and items, then "
+         "the end) reaches its final None within 3*steps+1 rounds under that executor, which re-polls a stream at once "
+         "after an item and otherwise only after a wake-up; both strategies; the bound's coefficient and constant are shown "
+         "necessary for merge. For wait_until, the groups and nests liveness is checked on the real code only: the harness's "
+         "fair wake-only executor (profile drain) must never get stuck (monitor LV).",
+    note=TB + " Liveness by theorem for join, try_join, race, race_ok, merge, chain, zip; for wait_until, groups and nests "
+         "by the drain runs on the real code. In the configuration stdv the crate's fc-verif hook exposes the readiness "
+         "bits / cached count / parent-waker flag, compared with the model's World after every operation.",
     design_ref="DESIGN.md §7 C01, Appendix A")
 
 CLAIMS["C20"] = dict(
